@@ -101,6 +101,11 @@ ASSIGN = [
          params=["xdt", "mcs", "nnz"], calls={"get_out_dtype": "g_get_out_dtype"},
          extern={"x.indices": "Ok xdt", "max(new_compressed_shape)": "Ok mcs", "x.nnz": "Ok nnz"},
          optional=["x.nnz", "max(new_compressed_shape)"]),
+    # GCXS concatenate / stack: what the joined index pointer's dtype must hold (plen = indptr.shape[0])
+    dict(name="g_gcxs_join_needed", file=GCOMMON, func="concatenate", target="needed",
+         params=["total_nnz", "plen"], calls={}, extern={"indptr.shape[0]": "Ok plen"}),
+    dict(name="g_gcxs_stack_needed", file=GCOMMON, func="stack", target="needed",
+         params=["total_nnz", "plen"], calls={}, extern={"indptr.shape[0]": "Ok plen"}),
     dict(name="g_1d_reshape_dtype", file=GCONVERT, func="_1d_reshape", target="coords_dtype",
          params=["xdt", "mcs", "nnz"], calls={"get_out_dtype": "g_get_out_dtype"},
          extern={"x.indices": "Ok xdt", "max(new_compressed_shape)": "Ok mcs", "x.nnz": "Ok nnz"},
@@ -119,6 +124,15 @@ LINEAR_LOC = dict(
              "np.ravel_multi_index(coords, shape)": "DInt i64",
              "coords[0]": "d", "coords[0, :]": "d", "coords[0].astype(np.intp)": "DInt i64"},
 )
+
+# Numba kernel conditions: the `if` of the single list comprehension in the function's return statement,
+# an equality between operator trees over elements of index arrays ("arr") and Numba int64 scalars ("nb64"),
+# translated with MachInt's Numba promotion (nb_arr_sc / nb_arr_arr).
+NUMBA_COND = [
+    dict(name="s_diagonal_mask", file=COMMON, func="_diagonal_idx",
+         leaves={"coordlist[axis1][i]": ("arr", "a1"), "coordlist[axis2][i]": ("arr", "a2"), "offset": ("nb64", "offset")},
+         params=[("a1", "tarr"), ("a2", "tarr"), ("offset", "Z")]),
+]
 
 # stmt: exact text (ast.unparse) of the statement holding the expression.
 # what: 'value' (right-hand side of an Assign / the single argument of an Expr call), 'aug' (AugAssign:
@@ -251,13 +265,6 @@ FACT = [
       "np.cumsum(np.bincount(coords[0], minlength=row_size), out=indptr[1:])"],
      "Definition s_from_coo_digit (d : dty) (lin : list Z) (stride dim : Z) : tarr :=\n"
      "  assign_into d (mkT (DInt i64) (map (fun l => np_mod (np_div l stride) dim) lin))."),
-    # GCXS concatenate / stack: what the index-pointer dtype must hold (both functions; plen = indptr.shape[0])
-    ("s_gcxs_join_needed", GCOMMON, "concatenate",
-     ["needed = max(total_nnz, indptr.shape[0] - 1)", "indptr = np.concatenate(ptr_list)"],
-     "Definition s_gcxs_join_needed (total_nnz plen : Z) : Z := Z.max total_nnz (plen - 1)."),
-    ("s_gcxs_stack_needed", GCOMMON, "stack",
-     ["needed = max(total_nnz, indptr.shape[0] - 1)", "indptr = np.concatenate(ptr_list)"],
-     "Definition s_gcxs_stack_needed (total_nnz plen : Z) : Z := Z.max total_nnz (plen - 1)."),
     # _transpose: new coordinates (computed in intp) and the cumulated row counts are stored in coords_dtype
     ("s_transpose_store", GCONVERT, "_transpose",
      ["new_coords = np.empty((2, x.nnz), dtype=coords_dtype)",
